@@ -80,6 +80,7 @@ type vhtunScenarioOut struct {
 	LegsBase   int            `json:"legs_base"` // goroutines of tunnelled connections before / after
 	LegsFinal  int            `json:"legs_final"`
 	Released   bool           `json:"released"`
+	Failed     bool           `json:"failed"` // a connection already failed; later checks were skipped
 	Goroutines string         `json:"goroutines,omitempty"`
 }
 
@@ -149,7 +150,7 @@ func vhtunRead(c net.Conn, want int, bufs []int, zero *int) ([]byte, error) {
 	var got []byte
 	for i := 0; want < 0 || len(got) < want; i++ {
 		buf := make([]byte, bufs[i%len(bufs)])
-		_ = c.SetReadDeadline(time.Now().Add(30 * time.Second))
+		_ = c.SetReadDeadline(time.Now().Add(12 * time.Second))
 		n, err := c.Read(buf)
 		got = append(got, buf[:n]...)
 		if err != nil {
@@ -506,7 +507,13 @@ func vhtunRunScenario(sc vhtunScenario) (out vhtunScenarioOut) {
 	out.Baseline = vhtunGoroutines(500 * time.Millisecond)
 	out.LegsBase = vhtunLegs()
 	for _, spec := range sc.Conns {
-		out.Conns = append(out.Conns, vhtunRunConn(env, spec))
+		co := vhtunRunConn(env, spec)
+		out.Conns = append(out.Conns, co)
+		if co.Error != "" || co.GotUp != co.SentUp || co.GotDown != co.SentDown || !co.EOFSeen {
+			// one failing connection is enough; the rest would only wait for time-outs
+			out.Failed = true
+			return
+		}
 	}
 	// both legs released: no goroutine of a tunnelled connection is left (generous deadline, no timing assertion)
 	deadline := time.Now().Add(25 * time.Second)
@@ -553,10 +560,14 @@ func TestVerifHarness_Tunnel(t *testing.T) {
 		select {
 		case r := <-done:
 			out.Scenarios = append(out.Scenarios, r)
+			if r.Failed || r.Panic != "" {
+				goto finish // fail fast: the python monitor reports this scenario
+			}
 		case <-time.After(240 * time.Second):
 			out.Scenarios = append(out.Scenarios, vhtunScenarioOut{ID: sc.ID, Panic: "watchdog: scenario did not finish", Conns: []vhtunConnOut{}})
 		}
 	}
+finish:
 	b, err := json.Marshal(out)
 	if err != nil {
 		t.Fatal(err)
